@@ -3,6 +3,8 @@ package main
 import (
 	"fmt"
 	"go/ast"
+	"go/token"
+	"strconv"
 	"strings"
 )
 
@@ -303,6 +305,414 @@ func (o *out) c13Decision(fs funcSpec) {
 	o.f("Definition %s %s : %s :=\n  %s.\n(* from %s:%s.%s *)\n", fs.coqName, fs.params, fs.retType, body, fs.dir, fs.recv, fs.name)
 }
 
+// ---------------------------------------------------------------------------------------------------------------
+// c13OpenTree: the body of a function that hands out an output handle (atomicfile.WriteAny, atomicfile.New) as a decision
+// tree `otree` (declared in the generated file itself, see c13OpenPreamble):
+//   ORet h e                        return h, e
+//   OIf c th el                     if c {th} else {el}; statements after the if continue both branches that fall through
+//   OCall fn target flags hv ev k   hv, ev := <fn>(<target>, flags); k        (-1: result not bound / dropped)
+//   OBind hv h k                    hv := <handle expression>; k
+// fn:     0 New  1 ioutil.TempFile / os.CreateTemp  2 os.Create  3 os.OpenFile  4 os.Open  5 os.Remove  6 os.Truncate
+// target: 0 the function's own path parameter (the destination)   1 the sibling temporary (Dir(p), Base(p)+".tmp")
+// flags:  the Linux open(2) flags the call passes (O_WRONLY 1, O_RDWR 2, O_CREAT 64, O_EXCL 128, O_TRUNC 512, O_APPEND 1024)
+// Every call that is not listed, every statement form that is not listed, and every call on a path other than the two
+// targets is a broken tie: the model interprets the tree (C13/Stage.v), so a fallback branch, a changed flag, a dropped
+// error or a moved guard changes the generated term and with it the plans the theorems quantify over.
+// ---------------------------------------------------------------------------------------------------------------
+const c13OpenPreamble = `(* the decision-tree language of the open phase (see c13OpenTree in gen_c13.go) *)
+Inductive ohandle := HNil | HStdout (do_close : bool) | HDirect (v : Z) (do_close : bool) | HAtomic (v : Z) | HVar (v : Z).
+Inductive oerr := ENone | EOf (v : Z) | ENew.
+Inductive ocond := OCDash | OCSpecial | OCErr (v : Z) (nonnil : bool) | OCNot (c : ocond) | OCAnd (a b : ocond) | OCOr (a b : ocond) | OCOpaque (k : Z).
+Inductive otree :=
+| ORet (h : ohandle) (e : oerr)
+| OIf (c : ocond) (th el : otree)
+| OCall (fn target flags hv ev : Z) (k : otree)
+| OBind (hv : Z) (h : ohandle) (k : otree)
+| OStuck.
+`
+
+type otTr struct {
+	p      *pkgInfo
+	param  string // name of the path parameter
+	vars   map[string]int
+	names  []string
+	opaque []string
+	fresh  int
+	err    error
+}
+
+func (t *otTr) failf(format string, a ...interface{}) string {
+	if t.err == nil {
+		t.err = fmt.Errorf(format, a...)
+	}
+	return "OStuck"
+}
+
+func (t *otTr) text(n ast.Node) string { return strings.Join(strings.Fields(printNode(t.p.fset, n)), " ") }
+
+func (t *otTr) varOf(name string) int {
+	if name == "_" {
+		return -1
+	}
+	if v, ok := t.vars[name]; ok {
+		return v
+	}
+	v := len(t.names)
+	t.vars[name] = v
+	t.names = append(t.names, name)
+	return v
+}
+
+func (t *otTr) freshVar(prefix string) int {
+	t.fresh++
+	return t.varOf(fmt.Sprintf("%s#%d", prefix, t.fresh))
+}
+
+func c13zlit(v int) string {
+	if v < 0 {
+		return fmt.Sprintf("(%d)", v)
+	}
+	return fmt.Sprint(v)
+}
+
+var c13OpenFlags = map[string]int{"os.O_RDONLY": 0, "os.O_WRONLY": 1, "os.O_RDWR": 2, "os.O_CREATE": 64, "os.O_EXCL": 128, "os.O_TRUNC": 512,
+	"os.O_APPEND": 1024, "os.O_SYNC": 1052672, "syscall.O_RDONLY": 0, "syscall.O_WRONLY": 1, "syscall.O_RDWR": 2, "syscall.O_CREAT": 64,
+	"syscall.O_EXCL": 128, "syscall.O_TRUNC": 512, "syscall.O_APPEND": 1024}
+
+func (t *otTr) flagsOf(e ast.Expr) (int, bool) {
+	switch x := e.(type) {
+	case *ast.ParenExpr:
+		return t.flagsOf(x.X)
+	case *ast.BinaryExpr:
+		if x.Op == token.OR || x.Op == token.ADD {
+			a, ok1 := t.flagsOf(x.X)
+			b, ok2 := t.flagsOf(x.Y)
+			return a | b, ok1 && ok2
+		}
+	case *ast.BasicLit:
+		if v, err := strconv.ParseInt(x.Value, 0, 64); err == nil {
+			return int(v), true
+		}
+	default:
+		if v, ok := c13OpenFlags[t.text(e)]; ok {
+			return v, true
+		}
+	}
+	return 0, false
+}
+
+// call: (fn, target, flags) of a listed call, ok=false when the call is not one the language knows
+func (t *otTr) call(ce *ast.CallExpr) (fn, target, flags int, ok bool) {
+	callee := t.text(ce.Fun)
+	arg := func(i int) string {
+		if i < len(ce.Args) {
+			return strings.ReplaceAll(t.text(ce.Args[i]), " ", "")
+		}
+		return ""
+	}
+	onDest := func() bool { return arg(0) == t.param }
+	switch callee {
+	case "New", "atomicfile.New":
+		return 0, 0, 0, onDest()
+	case "ioutil.TempFile", "os.CreateTemp":
+		if arg(0) == "filepath.Dir("+t.param+")" && arg(1) == "filepath.Base("+t.param+")+\".tmp\"" {
+			return 1, 1, 2 | 64 | 128, true
+		}
+		return 1, 2, 0, false
+	case "os.Create":
+		return 2, 0, 2 | 64 | 512, onDest()
+	case "os.OpenFile":
+		if len(ce.Args) < 2 {
+			return 3, 0, 0, false
+		}
+		fl, fok := t.flagsOf(ce.Args[1])
+		return 3, 0, fl, onDest() && fok
+	case "os.Open":
+		return 4, 0, 0, onDest()
+	case "os.Remove":
+		return 5, 0, 0, onDest()
+	case "os.Truncate":
+		return 6, 0, 0, onDest()
+	}
+	return -1, 0, 0, false
+}
+
+func (t *otTr) handle(e ast.Expr) string {
+	switch x := e.(type) {
+	case *ast.ParenExpr:
+		return t.handle(x.X)
+	case *ast.Ident:
+		if x.Name == "nil" {
+			return "HNil"
+		}
+		if _, ok := t.vars[x.Name]; ok {
+			return fmt.Sprintf("(HVar %d)", t.vars[x.Name])
+		}
+	case *ast.UnaryExpr:
+		if x.Op == token.AND {
+			return t.handle(x.X)
+		}
+	case *ast.CompositeLit:
+		ty := t.text(x.Type)
+		var elts []ast.Expr
+		for _, el := range x.Elts {
+			if kv, ok := el.(*ast.KeyValueExpr); ok {
+				elts = append(elts, kv.Value)
+			} else {
+				elts = append(elts, el)
+			}
+		}
+		if len(elts) == 2 {
+			first := t.text(elts[0])
+			switch ty {
+			case "nopAtomic":
+				dc := t.text(elts[1])
+				if dc == "true" || dc == "false" {
+					if first == "os.Stdout" {
+						return fmt.Sprintf("(HStdout %s)", dc)
+					}
+					if v, ok := t.vars[first]; ok {
+						return fmt.Sprintf("(HDirect %d %s)", v, dc)
+					}
+				}
+			case "atomicFile":
+				if v, ok := t.vars[first]; ok && t.text(elts[1]) == t.param {
+					return fmt.Sprintf("(HAtomic %d)", v)
+				}
+			}
+		}
+	}
+	t.failf("unsupported handle expression %s", t.text(e))
+	return "HNil"
+}
+
+func (t *otTr) errExpr(e ast.Expr) string {
+	switch x := e.(type) {
+	case *ast.Ident:
+		if x.Name == "nil" {
+			return "ENone"
+		}
+		if v, ok := t.vars[x.Name]; ok {
+			return fmt.Sprintf("(EOf %d)", v)
+		}
+	case *ast.CallExpr:
+		c := t.text(x.Fun)
+		if c == "errors.New" || c == "fmt.Errorf" {
+			return "ENew"
+		}
+	}
+	t.failf("unsupported error expression %s", t.text(e))
+	return "ENone"
+}
+
+func (t *otTr) opaqueOf(e ast.Expr) string {
+	txt := t.text(e)
+	for i, o := range t.opaque {
+		if o == txt {
+			return fmt.Sprintf("(OCOpaque %d)", i)
+		}
+	}
+	t.opaque = append(t.opaque, txt)
+	return fmt.Sprintf("(OCOpaque %d)", len(t.opaque)-1)
+}
+
+func (t *otTr) cond(e ast.Expr) string {
+	switch x := e.(type) {
+	case *ast.ParenExpr:
+		return t.cond(x.X)
+	case *ast.UnaryExpr:
+		if x.Op == token.NOT {
+			return "(OCNot " + t.cond(x.X) + ")"
+		}
+	case *ast.CallExpr:
+		if t.text(x.Fun) == "isSpecial" && len(x.Args) == 1 && t.text(x.Args[0]) == t.param {
+			return "OCSpecial"
+		}
+	case *ast.BinaryExpr:
+		switch x.Op {
+		case token.LAND:
+			return "(OCAnd " + t.cond(x.X) + " " + t.cond(x.Y) + ")"
+		case token.LOR:
+			return "(OCOr " + t.cond(x.X) + " " + t.cond(x.Y) + ")"
+		case token.EQL, token.NEQ:
+			a, b := t.text(x.X), t.text(x.Y)
+			if a == "nil" {
+				a, b = b, a
+			}
+			if v, ok := t.vars[a]; ok && b == "nil" {
+				if x.Op == token.NEQ {
+					return fmt.Sprintf("(OCErr %d true)", v)
+				}
+				return fmt.Sprintf("(OCErr %d false)", v)
+			}
+			if (a == t.param && b == `"-"`) || (b == t.param && a == `"-"`) {
+				if x.Op == token.EQL {
+					return "OCDash"
+				}
+				return "(OCNot OCDash)"
+			}
+		}
+	}
+	return t.opaqueOf(e)
+}
+
+// stmts: the tree of a statement list; rest = the tree of what follows when the list falls through
+func (t *otTr) stmts(list []ast.Stmt, rest string) string {
+	if len(list) == 0 {
+		return rest
+	}
+	s, tail := list[0], list[1:]
+	switch x := s.(type) {
+	case *ast.ReturnStmt:
+		if len(x.Results) == 1 {
+			if ce, ok := x.Results[0].(*ast.CallExpr); ok {
+				fn, target, flags, ok := t.call(ce)
+				if !ok {
+					return t.failf("unsupported call %s", t.text(ce))
+				}
+				hv, ev := t.freshVar("ret"), t.freshVar("reterr")
+				return fmt.Sprintf("(OCall %d %d %d %d %d (ORet (HVar %d) (EOf %d)))", fn, target, flags, hv, ev, hv, ev)
+			}
+		}
+		if len(x.Results) != 2 {
+			return t.failf("unsupported return %s", t.text(x))
+		}
+		return "(ORet " + t.handle(x.Results[0]) + " " + t.errExpr(x.Results[1]) + ")"
+	case *ast.IfStmt:
+		cont := t.stmts(tail, rest)
+		build := func() string {
+			c := t.cond(x.Cond)
+			th := t.stmts(x.Body.List, cont)
+			el := cont
+			switch e := x.Else.(type) {
+			case *ast.BlockStmt:
+				el = t.stmts(e.List, cont)
+			case *ast.IfStmt:
+				el = t.stmts([]ast.Stmt{e}, cont)
+			}
+			return "(OIf " + c + " " + th + " " + el + ")"
+		}
+		if x.Init != nil {
+			// `if x, err := f(); cond {...}`: the assignment, then the if (the variables stay visible: harmless here)
+			return t.assign(x.Init, build)
+		}
+		return build()
+	case *ast.AssignStmt:
+		return t.assign(x, func() string { return t.stmts(tail, rest) })
+	case *ast.ExprStmt:
+		if ce, ok := x.X.(*ast.CallExpr); ok {
+			callee := t.text(ce.Fun)
+			if callee == "runtime.SetFinalizer" {
+				return t.stmts(tail, rest)
+			}
+			if fn, target, flags, ok := t.call(ce); ok {
+				return fmt.Sprintf("(OCall %d %d %d (-1) (-1) %s)", fn, target, flags, t.stmts(tail, rest))
+			}
+		}
+		return t.failf("unsupported statement %s", t.text(s))
+	case *ast.DeclStmt, *ast.EmptyStmt:
+		return t.stmts(tail, rest)
+	case *ast.BlockStmt:
+		return t.stmts(append(append([]ast.Stmt{}, x.List...), tail...), rest)
+	}
+	return t.failf("unsupported statement %s", t.text(s))
+}
+
+func (t *otTr) assign(s ast.Stmt, k func() string) string {
+	x, ok := s.(*ast.AssignStmt)
+	if !ok || len(x.Rhs) != 1 {
+		return t.failf("unsupported statement %s", t.text(s))
+	}
+	var lhs []string
+	for _, l := range x.Lhs {
+		id, ok := l.(*ast.Ident)
+		if !ok {
+			return t.failf("unsupported assignment %s", t.text(s))
+		}
+		lhs = append(lhs, id.Name)
+	}
+	if ce, ok := x.Rhs[0].(*ast.CallExpr); ok {
+		fn, target, flags, ok := t.call(ce)
+		if !ok {
+			return t.failf("unsupported call %s", t.text(ce))
+		}
+		hv, ev := -1, -1
+		switch {
+		case len(lhs) == 2:
+			hv, ev = t.varOf(lhs[0]), t.varOf(lhs[1])
+		case len(lhs) == 1 && (fn == 5 || fn == 6):
+			ev = t.varOf(lhs[0])
+		default:
+			return t.failf("unsupported assignment %s", t.text(s))
+		}
+		return fmt.Sprintf("(OCall %d %d %d %s %s %s)", fn, target, flags, c13zlit(hv), c13zlit(ev), k())
+	}
+	if len(lhs) == 1 {
+		h := t.handle(x.Rhs[0])
+		v := t.varOf(lhs[0])
+		return fmt.Sprintf("(OBind %s %s %s)", c13zlit(v), h, k())
+	}
+	return t.failf("unsupported assignment %s", t.text(s))
+}
+
+func (o *out) c13OpenTree(dir, name, coqName string) {
+	p, fd := findFunc(dir, "", name)
+	if fd == nil {
+		o.brokenDef(coqName, "function "+dir+":."+name+" not found")
+		return
+	}
+	if fd.Type.Params == nil || len(fd.Type.Params.List) != 1 || len(fd.Type.Params.List[0].Names) != 1 {
+		o.brokenDef(coqName, name+" no longer takes exactly one (path) parameter")
+		return
+	}
+	t := &otTr{p: p, param: fd.Type.Params.List[0].Names[0].Name, vars: map[string]int{}}
+	tree := t.stmts(fd.Body.List, "OStuck")
+	if t.err != nil {
+		o.brokenDef(coqName, t.err.Error())
+		return
+	}
+	var vn, on []string
+	for i, n := range t.names {
+		vn = append(vn, fmt.Sprintf("%d=%s", i, n))
+	}
+	for i, c := range t.opaque {
+		on = append(on, fmt.Sprintf("%d=`%s`", i, c))
+	}
+	o.f("Definition %s : otree :=\n  %s.\n(* from %s:.%s(%s) ; variables %s ; opaque conditions %s *)\n", coqName, tree, dir, name, t.param, strings.Join(vn, " "), strings.Join(on, " "))
+}
+
+// c13OsCalls: every call `os.X(...)`, `ioutil.X(...)`, `syscall.X(...)` in the function, in source order, as indices into
+// `known` (a call that is not in `known` is listed as -1: a file-system call the model has no reading for)
+func (o *out) c13OsCalls(dir, recv, name, coqName string, known []string) {
+	p, fd := findFunc(dir, recv, name)
+	if fd == nil {
+		o.brokenDef(coqName, "function "+dir+":"+recv+"."+name+" not found")
+		return
+	}
+	var idx, descr []string
+	ast.Inspect(fd.Body, func(nd ast.Node) bool {
+		ce, ok := nd.(*ast.CallExpr)
+		if !ok {
+			return true
+		}
+		callee := printNode(p.fset, ce.Fun)
+		if !(strings.HasPrefix(callee, "os.") || strings.HasPrefix(callee, "ioutil.") || strings.HasPrefix(callee, "syscall.") || strings.HasPrefix(callee, "unix.")) {
+			return true
+		}
+		k := -1
+		for i, n := range known {
+			if n == callee {
+				k = i
+			}
+		}
+		idx = append(idx, c13zlit(k))
+		descr = append(descr, callee)
+		return true
+	})
+	o.f("Definition %s : list Z := [%s]. (* %s:%s.%s calls into os / ioutil / syscall: %s ; index into [%s] *)\n", coqName, strings.Join(idx, "; "), dir, recv, name,
+		strings.Join(descr, " "), strings.Join(known, " "))
+}
+
 func init() {
 	generators["C13_gen"] = func(o *out) {
 		const a = "lib/atomicfile"
@@ -360,13 +770,16 @@ func init() {
 
 		// ------------------------------------------------------------------ decisions
 		o.f("\n(* ---- decisions ---- *)\n")
-		// WriteAny: 0 = stdout (no file), 1 = direct write to a special file, 2 = write-rename
-		o.c13Decision(funcSpec{dir: a, recv: "", name: "WriteAny", coqName: "writeany_choice",
-			params: "(path_is_dash is_special : bool)", retType: "(Z * Z)",
-			leaves: map[string]string{`path == "-"`: "path_is_dash", "isSpecial(path)": "is_special",
-				"nopAtomic{os.Stdout, false}": "0", "nopAtomic{f, true}": "1", "New(path)": "(2, 0)", "nil": "0", "err": "0"},
-			types:  map[string]string{`path == "-"`: "bool", "isSpecial(path)": "bool"},
-			ignore: []string{"os.Create(path)"}})
+		// WriteAny and New as decision trees over their fallible calls (the choice 0 = stdout / 1 = direct write to a special file /
+		// 2 = write-rename, and what happens when a call fails, are read off the tree by C13/Stage.v)
+		o.f("%s", c13OpenPreamble)
+		o.c13OpenTree(a, "WriteAny", "writeany_tree")
+		o.c13OpenTree(a, "New", "new_tree")
+		// the callers that stage through WriteAny make no file-system call of their own (a fallback such as os.Create(dest) would show here)
+		osKnown := []string{"ioutil.ReadAll", "os.Create", "os.OpenFile", "os.WriteFile", "ioutil.WriteFile", "os.Remove", "os.Rename", "os.Truncate", "os.Open", "ioutil.TempFile", "os.CreateTemp"}
+		o.c13OsCalls("signers", "fileProducer", "Apply", "whole_os_calls", osKnown)
+		o.c13OsCalls("signers/pgp", "pgpTransformer", "Apply", "pgp_os_calls", osKnown)
+		o.c13OsCalls(a, "", "WriteFile", "writefile_os_calls", osKnown)
 		o.c13Decision(funcSpec{dir: a, recv: "", name: "isSpecial", coqName: "is_special",
 			params: "(stat_ok is_regular : bool)", retType: "bool",
 			leaves: map[string]string{"err == nil": "stat_ok", "stat.Mode().IsRegular()": "is_regular"},
